@@ -1524,6 +1524,21 @@ pub(crate) fn env_get(name: &str) -> Option<String> {
     g.env.get(name).cloned()
 }
 
+/// Change the simulated environment from inside a run (harness helper: somebody else in the process calls
+/// `set_var` / `remove_var` while library objects already exist).
+pub fn set_env_now(name: &str, value: Option<&str>) {
+    let (k, _) = cur();
+    let mut g = k.lock();
+    match value {
+        Some(v) => {
+            g.env.insert(name.to_string(), v.to_string());
+        }
+        None => {
+            g.env.remove(name);
+        }
+    }
+}
+
 pub(crate) fn aux_below(n: u64) -> u64 {
     let (k, _) = cur();
     let mut g = k.lock();
